@@ -13,3 +13,57 @@ package tracer
 //@   ensures @empty strLower(encoding) == "" ==> result != nil && decFormat(result) == 1
 //@   ensures @unknown strLower(encoding) != "" && strLower(encoding) != compName(1) && strLower(encoding) != compName(2) && strLower(encoding) != compName(3) &&
 //@        strLower(encoding) != compName(4) && strLower(encoding) != compName(5) && strLower(encoding) != compName(6) ==> typeis(result, brokenDecompressor)
+
+// ---- trace hand-off (C16): Init / Complete / Await / Clear, each atomic under t.mu ----
+// A slot is absent, pending (done != nil) or completed (done == nil, trace set).
+
+//@ guarded Tracer: traces by mu
+//@ mapvalues map[string]*traceResult: v != nil
+// pending slots hold open channels, and no two slots share a result object or a channel
+//@ monitor Tracer by mu: forall k string :: has(self.traces, k) && self.traces[k].done != nil ==> !chanClosed[self.traces[k].done]
+//@ monitor Tracer by mu: forall k1 string, k2 string :: has(self.traces, k1) && has(self.traces, k2) && k1 != k2 ==> self.traces[k1] != self.traces[k2]
+//@ monitor Tracer by mu: forall k1 string, k2 string :: has(self.traces, k1) && has(self.traces, k2) && k1 != k2 && self.traces[k1].done != nil ==> self.traces[k1].done != self.traces[k2].done
+
+//@ func (*Tracer).Init
+//@   requires t != nil ==> !held[t.mu]
+//@   modifies held, Tracer.traces, map[string]*traceResult
+//@   ensures t != nil ==> !held[t.mu]
+//@   ensures @pending t != nil ==> t.traces != nil && has(t.traces, testName) && fresh(t.traces[testName]) && t.traces[testName].done != nil
+//@   ensures @zero t != nil ==> t.traces[testName].trace.TestName == "" && len(t.traces[testName].trace.Events) == 0
+
+//@ func (*Tracer).Clear
+//@   requires t != nil ==> !held[t.mu]
+//@   modifies held, map[string]*traceResult
+//@   ensures t != nil ==> !held[t.mu]
+//@   ensures @gone t != nil ==> !has(t.traces, testName)
+
+// Complete: only a pending slot of that name takes the trace (and becomes completed, its
+// channel closed); unknown, cleared and already completed names leave every slot as it was.
+//@ func (*Tracer).Complete
+//@   requires t != nil ==> !held[t.mu]
+//@   modifies held, traceResult.*, Trace.*, chanClosed
+//@   ensures t != nil ==> !held[t.mu]
+//@   ensures @first t != nil && atlock(has(t.traces, trace.TestName)) && atlock(t.traces[trace.TestName].done) != nil ==>
+//@        t.traces[trace.TestName].done == nil && chanClosed[atlock(t.traces[trace.TestName].done)] &&
+//@        t.traces[trace.TestName].trace.TestName == trace.TestName && t.traces[trace.TestName].trace.Events == trace.Events &&
+//@        t.traces[trace.TestName].trace.Request == trace.Request && t.traces[trace.TestName].trace.Response == trace.Response && t.traces[trace.TestName].trace.Err == trace.Err
+//@   ensures @noeffect t != nil && (!atlock(has(t.traces, trace.TestName)) || atlock(t.traces[trace.TestName].done) == nil) ==>
+//@        chanClosed == atlock(chanClosed) && (forall r *traceResult :: r.done == atlock(r.done) && r.trace.TestName == atlock(r.trace.TestName) && r.trace.Events == atlock(r.trace.Events) &&
+//@          r.trace.Request == atlock(r.trace.Request) && r.trace.Response == atlock(r.trace.Response) && r.trace.Err == atlock(r.trace.Err))
+//@   ensures @others t != nil ==> forall r *traceResult :: (!atlock(has(t.traces, trace.TestName)) || r != atlock(t.traces[trace.TestName])) ==>
+//@        r.done == atlock(r.done) && r.trace.Events == atlock(r.trace.Events) && r.trace.TestName == atlock(r.trace.TestName)
+//@   ensures @slots t != nil ==> t.traces == atlock(t.traces)
+
+// Await: no tracer or no slot is an immediate error; otherwise the only trace ever handed out
+// is the slot's own trace record (the one the first Complete of that name fills), whether the
+// slot was already completed at the time of the call or the wait ended through its channel.
+// (That a wait ends when the context does is the select statement; not proved.)
+//@ func (*Tracer).Await
+//@   requires t != nil ==> !held[t.mu]
+//@   requires ctx != nil
+//@   modifies held
+//@   ensures @disabled t == nil ==> result_0 == nil && result_1 != nil
+//@   ensures @cleared t != nil && !atlock(has(t.traces, testName)) ==> result_0 == nil && result_1 != nil
+//@   ensures @slot t != nil && result_0 != nil ==> atlock(has(t.traces, testName)) && result_0 == fieldaddr(atlock(t.traces[testName]), trace) && result_1 == nil
+//@   ensures @completed t != nil && atlock(has(t.traces, testName)) && atlock(t.traces[testName].done) == nil ==> result_0 == fieldaddr(atlock(t.traces[testName]), trace) && result_1 == nil
+//@   ensures @exclusive !(result_0 != nil && result_1 != nil)
